@@ -91,6 +91,9 @@ Bad(W) ==
        \* switched off), with it on every debug call site of an active DAG is entered once
        <<W.built /\ inEq /\ wrongExec /\ HasDebug(P), "C13.call-exec">>,
        <<W.built /\ W.dup, "C03.twice">>,
+       \* C04: a node asked to run on the main thread was entered on the thread that called the DAG, every other node on a
+       \* worker thread - also when the node belongs to a nested DAG
+       <<W.built /\ W.wrongthread, "C04.thread">>,
        \* C15: the last of several calls on one DAG object returns what a DAG built afresh returns for the same arguments
        <<W.built /\ ~W.fresh_same, "C15.not-fresh">>,
        \* conc = 1: one of several simultaneous calls of one DAG from different threads (C16)
